@@ -495,6 +495,76 @@ fn header_default(i: usize) -> Option<RVal> {
     }
 }
 
+// ------------------------------------------------------------------------------------ mixed descriptor forms
+/// A message body of several data (or amqp-sequence) sections in which every section names its descriptor in a
+/// form of its own: smallulong, ulong, symbol in sym8, symbol in sym32.  All are the same descriptor; the body
+/// has to come back with every section, in order.
+fn mixed_descriptor_cases() -> (u64, Vec<(String, String, serde_json::Value)>) {
+    use fe2o3_amqp_types::messaging::message::__private::Deserializable;
+    use fe2o3_amqp_types::messaging::{Body, Message};
+    use serde_amqp::Value;
+    fn descriptor(code: u8, name: &str, form: usize) -> Vec<u8> {
+        let mut v = vec![0x00];
+        match form {
+            0 => v.extend([0x53, code]),
+            1 => v.extend([0x80, 0, 0, 0, 0, 0, 0, 0, code]),
+            2 => {
+                v.extend([0xa3, name.len() as u8]);
+                v.extend(name.as_bytes());
+            }
+            _ => {
+                v.push(0xb3);
+                v.extend((name.len() as u32).to_be_bytes());
+                v.extend(name.as_bytes());
+            }
+        }
+        v
+    }
+    let forms = ["smallulong", "ulong", "sym8", "sym32"];
+    let mut fails = vec![];
+    let mut n = 0u64;
+    for seq in [false, true] {
+        for k in 2..=3usize {
+            for combo in 0..4usize.pow(k as u32) {
+                let fs: Vec<usize> = (0..k).map(|i| (combo / 4usize.pow(i as u32)) % 4).collect();
+                let mut bytes = vec![];
+                for (i, f) in fs.iter().enumerate() {
+                    if seq {
+                        bytes.extend(descriptor(0x76, "amqp:amqp-sequence:list", *f));
+                        bytes.extend([0xc0, 0x03, 0x01, 0x50, i as u8]); // list8 [ubyte i]
+                    } else {
+                        bytes.extend(descriptor(0x75, "amqp:data:binary", *f));
+                        bytes.extend([0xa0, 0x02, 0xd0, i as u8]); // vbin8 d0 <i>
+                    }
+                }
+                n += 1;
+                let what = format!("{} {} sections with descriptors as {:?}: {}", k, if seq { "amqp-sequence" } else { "data" }, fs.iter().map(|f| forms[*f]).collect::<Vec<_>>(), hex(&bytes));
+                let rep = json!({"kind": "mixed-descriptors", "hex": hex_full(&bytes)});
+                match catch(|| serde_amqp::from_slice::<Deserializable<Message<Body<Value>>>>(&bytes)) {
+                    Err(p) => fails.push(("panic mixed-descriptor body".to_string(), format!("{what}: {p}"), rep)),
+                    Ok(Err(e)) => fails.push(("variant-rejected mixed-descriptor body".to_string(), format!("{what}: refused with {e}"), rep)),
+                    Ok(Ok(m)) => {
+                        let got: Option<Vec<u8>> = match &m.0.body {
+                            Body::Data(b) if !seq => Some(b.iter().map(|d| d.0.last().copied().unwrap_or(255)).collect()),
+                            Body::Sequence(b) if seq => Some(b.iter().map(|sq| match sq.0.first() { Some(Value::Ubyte(x)) => *x, _ => 255 }).collect()),
+                            _ => None,
+                        };
+                        let want: Vec<u8> = (0..k as u8).collect();
+                        if got.as_ref() != Some(&want) {
+                            fails.push((
+                                "body-sections-lost mixed-descriptor body".to_string(),
+                                format!("{what}: decoded body {} (sections expected {:?}, got {:?})", trunc(&format!("{:?}", m.0.body)), want, got),
+                                rep,
+                            ));
+                        }
+                    }
+                }
+            }
+        }
+    }
+    (n, fails)
+}
+
 pub fn run(ctx: &Ctx) -> Outcome {
     let mut out = Outcome::new("exploration");
     if let Some(p) = &ctx.replay {
@@ -532,6 +602,11 @@ pub fn run(ctx: &Ctx) -> Outcome {
     for f in t.fails {
         out.violation(f.0, f.1, f.2);
     }
+    let (n_mixed, mixed) = mixed_descriptor_cases();
+    for (sig, d, r) in mixed {
+        out.violation(sig, d, r);
+    }
+    out.set("mixed_descriptor_bodies", n_mixed);
     let tvars = tv.variants.load(Ordering::Relaxed);
     out.set("evaluations", evals + variants + t.evaluations + tvars);
     out.set("values", evals);
